@@ -101,7 +101,7 @@ def minimise(spec, harness, model, line, kind, budget=300):
         spent += len(cands)
         for c, i, m in zip(cands, impl, mod):
             k, _ = evaluate(spec, c, i, m)
-            if k == kind:
+            if k == kind and not (i or "").startswith("bad-"):
                 cur = c
                 improved = True
                 break
@@ -161,6 +161,9 @@ def pipeline(spec, pid, tier, seed, replay, keep, t0, no_evidence):
         if getopt(spec, "MODEL", None) and model is None:
             log("model driver missing (lean build failed): correspondence runs without the model side")
 
+        if hasattr(harness, "close"):
+            import atexit
+            atexit.register(harness.close)
         if replay:
             return do_replay(spec, harness, model, replay)
 
@@ -249,7 +252,7 @@ def pipeline(spec, pid, tier, seed, replay, keep, t0, no_evidence):
                 lm, i2, m2, l = corr_broken[0]
                 nrep += 1
                 path = write_replay(pid, seed, nrep, {"property": pid, "kind": "correspondence", "correspondence": "corr:%s" % getopt(spec, "MODEL", "?"),
-                                                      "case": lm, "original_case": l, "impl": i2, "model": m2, "diverging_cases": len(corr_broken), "seed": seed, "tier": tier,
+                                                      "case": lm, "original_case": l, "impl": i2, "model": m2, "diverging_cases": len(corr_broken), "other_diverging_cases": [c[0] for c in corr_broken[1:6]], "seed": seed, "tier": tier,
                                                       "note": "model and implementation disagree on this case; the direct oracle found no failing input"})
                 res.violations.append(path)
                 print("VIOLATION property=%s replay=%s no-failing-input-found" % (pid, path))
@@ -296,6 +299,8 @@ def pipeline(spec, pid, tier, seed, replay, keep, t0, no_evidence):
                 "wall_s": wall, "violations": len(res.violations),
             }
             write_json(os.path.join(VERIF, "evidence", pid + ".json"), ev)
+        if hasattr(harness, "close"):
+            harness.close()
         log("%s %s seed=%d: %d cases (%d non-trivial), %d/%d obligations, %d violations, %d known, %.1fs" % (
             pid, tier, seed, res.evals, len(res.nontrivial), proof["discharged"], proof["obligations"], len(res.violations), len(res.known), wall))
         return 1 if res.violations else 0
